@@ -341,8 +341,10 @@ def run_C06(ctx):
             lone[v[0]] = lone.get(v[0], 0) + 1
     ctx.extra["programs_violating_exactly_one_rule"] = lone
     missing = [n for n in ("last", "opcode", "regs", "lddw", "jump", "call", "endian", "xadd", "len") if n not in lone]
-    if missing:
+    if missing and not ctx.quick:
+        # (the quick tier samples register bytes; the full enumeration must witness every rule alone)
         raise ToolError(f"vacuity: no enumerated program violates only rule(s) {missing}")
+    ctx.extra["rules_without_lone_witness_in_this_sample"] = missing
     ctx.extra["accepted"] = sum(1 for x in recs if x["accept"])
     ctx.extra["refused"] = sum(1 for x in recs if not x["accept"])
     ctx.nontrivial = len({json.dumps(x["id"]) for x in recs})
